@@ -134,11 +134,12 @@ SubUncompressE(st) ==
 
 \* ---- the cached question: filled by the question getters, reset by whatever can change the question ----
 \* (parsed_packet.rs: question_raw0 fills it; rr_iterator.rs set_raw_name / delete, parsed_packet.rs insert into the
-\* question section, rename, recompute of a possibly compressed packet reset it).  op: "set", "del", "unc",
+\* question section, rename, recompute of a possibly compressed packet, and every header setter and count update
+\* (a name may reach into the header) reset it).  op: "set", "del", "unc",
 \* "recompute", "ren", "insq", "readq", anything else leaves it alone; `filled`: whether it held a value before.
 CacheFilledAfter(op, ok, filled, mcBefore, hasQuestion) ==
   IF ~ok THEN filled
-  ELSE CASE op \in {"set", "del", "insq"} -> FALSE
+  ELSE CASE op \in {"set", "del", "insq", "ins"} -> FALSE      \* any change of a record count resets it too (F31)
          [] op = "ren" -> IF ObjDefect = "cache-kept" THEN filled ELSE FALSE
          [] op \in {"unc", "recompute"} -> IF mcBefore THEN FALSE ELSE filled
          [] op = "readq" -> hasQuestion
